@@ -18,6 +18,8 @@ Inductive case20 :=
 | CStore (name : bytes) (decoded : bool) (broker : bytes) (perr : bool) (scheme path host user : bytes) (outcome : Z)
   (* middleware.New(name, yaml): kind 0 approval lists / 1 varinterval / 2 none; outcome as above *)
 | CHookNew (name : bytes) (kind : Z) (decoded : bool) (wl bl : list bytes) (pm pe maxd : Z) (outcome : Z)
+  (* middleware.HooksFromHookConfigs(list of (name, yaml)): entries as for CHookNew; outcome as above *)
+| CHookList (entries : list (bytes * Z * bool * list bytes * list bytes * Z * Z * Z)) (outcome : Z)
   (* parseRedisURL(target) with url.Parse's answer; observed ok/host/password/db *)
 | CUrl (target : bytes) (perr : bool) (scheme path host user : bytes) (ok : bool) (ohost opw : bytes) (odb : Z)
   (* redis.New(cfg) against a live server: announce + scrape succeed? *)
@@ -139,6 +141,19 @@ Definition chk20 (c : case20) : verdict :=
      | Built => if negb (outcome =? 0) then 103 else 0
      | OptionsRefused => if outcome =? 0 then (if decoded then 8 else 102) else 0
      end)
+  | CHookList entries outcome =>
+    let opts := fun e : bytes * Z * bool * list bytes * list bytes * Z * Z * Z =>
+      let '(name, kind, decoded, w, b, pm, pe, maxd) := e in
+      (name, {| o_appr := if decoded && (kind =? 0) then Some {| wl := w; bl := b |} else None;
+                o_var := if decoded && (kind =? 1) then Some {| VarInterval.pm := pm; VarInterval.pe := pe; max_delta := maxd; mod_min := false |} else None;
+                o_jwt_ok := false |}) in
+    let m := hooks_from_configs (map opts entries) in
+    (6150 + start_code m,
+     match m with
+     | UnknownDriver => if outcome =? 0 then 7 else if negb (outcome =? 1) then 106 else 0
+     | Built => if negb (outcome =? 0) then 103 else 0
+     | OptionsRefused => if outcome =? 0 then 8 else 0
+     end)
   | CUrl target perr scheme path host user ok ohost opw odb =>
     match parse_redis_parts (mk_parts perr scheme path host user) with
     | None => (6200, if ok then 102 else 0)
@@ -172,6 +187,7 @@ Definition explain20 (c : case20) : list Z * list bytes :=
     ([start_code (new_hook name {| o_appr := if decoded && (kind =? 0) then Some {| wl := w; bl := b |} else None;
                 o_var := if decoded && (kind =? 1) then Some {| VarInterval.pm := pm; VarInterval.pe := pe; max_delta := maxd; mod_min := false |} else None;
                 o_jwt_ok := false |})], [])
+  | CHookList entries _ => ([Z.of_nat (length entries)], [])
   | CUrl _ perr scheme path host user _ _ _ _ =>
     match parse_redis_parts (mk_parts perr scheme path host user) with
     | None => ([-1], [])
